@@ -94,6 +94,13 @@ func openDBStore(db *bolt.DB, blob []byte) (o opened) {
 	return opened{r: r, accept: true}
 }
 
+func newDBReader(db *bolt.DB, blob []byte) (metadata.Reader, error) {
+	return dbmeta.NewReader(db, sectionOf(blob), storeOpts()...)
+}
+
+func mkdirAll(d string) error { return os.MkdirAll(d, 0o755) }
+func removeAll(d string)      { os.RemoveAll(d) }
+
 func fsBuckets(db *bolt.DB) []string {
 	var out []string
 	db.View(func(tx *bolt.Tx) error {
@@ -606,6 +613,7 @@ func runCase(db *bolt.DB, in caseIn, replay any) (out caseOut) {
 		nonconf = conformance(toc)
 	}
 	addViol := func(kind, p, mem, dbv, extra string) {
+		mem, dbv = focus(mem, dbv)
 		shape := shapeOf(toc, kind, basePath(p))
 		key := fmt.Sprintf("C05/%s/%s", kind, shape)
 		if strings.HasPrefix(kind, "clone-tocdigest") && dbv == "" {
@@ -742,6 +750,26 @@ func runCase(db *bolt.DB, in caseIn, replay any) (out caseOut) {
 	out.Sample = map[string]any{"input": in.Label, "toc": showBlobTOC(in.Blob), "observation_keys": len(mo.keys), "nodes": mo.nodes,
 		"memory_observation_excerpt": excerpt(mo, 14)}
 	return
+}
+
+// focus shortens two long space-separated tables to the neighbourhood of their first difference.
+func focus(a, b string) (string, string) {
+	if len(a) < 400 && len(b) < 400 {
+		return a, b
+	}
+	ta, tb := strings.Fields(a), strings.Fields(b)
+	i := 0
+	for i < len(ta) && i < len(tb) && ta[i] == tb[i] {
+		i++
+	}
+	cut := func(t []string) string {
+		lo, hi := max(i-1, 0), min(i+5, len(t))
+		if lo >= hi {
+			return fmt.Sprintf("(%d elements, ends before element %d)", len(t), i)
+		}
+		return fmt.Sprintf("(%d elements; first difference at element %d) … %s …", len(t), i, strings.Join(t[lo:hi], " "))
+	}
+	return cut(ta), cut(tb)
 }
 
 func clip(s string, n int) string {
@@ -1083,6 +1111,9 @@ func replayFn(c *runner.Ctx, raw json.RawMessage) (string, error) {
 	if strings.HasPrefix(r.Part, "iso") {
 		return replayIso(c, raw)
 	}
+	if r.Part == "A-large-chunks" || r.Part == "C-clone-first" {
+		return replayExtra(c, r.Part, int(r.Index))
+	}
 	useScratch(c)
 	db, err := openDB(c.Scratch)
 	if err != nil {
@@ -1131,7 +1162,7 @@ func main() {
 		ID:    "C05",
 		Level: "exploration",
 		Rule: "differential: every input blob is opened with memory.NewReader and db.NewReader (one shared bolt file) and TOCDigest, the RootID-rooted name tree (ForeachChild+GetChild), GetAttr of every node, GetOffset, ChunkEntryForOffset for every offset in [-1,size+1], ReadAt on the chunk-boundary grid, OpenFileWithPreReader callback sequences (drain/ignore/fail), and the same through Clone() must be equal. " +
-			"Inputs A: every tar of <=3 (quick) / <=4 (thorough) entries over a 12-symbol entry alphabet, built by estargz.Build (gzip, zstd:chunked) and estargz.Writer.AppendTar with chunk size 3|8 x min-chunk-size 0|16 (+prioritized files). Inputs B: hand-assembled spec-conforming TOCs by family. " +
+			"Inputs A: every tar of <=3 (quick) / <=4 (thorough) entries over a 12-symbol entry alphabet, built by estargz.Build (gzip, zstd:chunked) and estargz.Writer.AppendTar with chunk size 3|8 x min-chunk-size 0|16 (+prioritized files). A-large-chunks: files of 130/330/700 bytes with chunk sizes 50/64/129 (chunk offsets >= 64; gzip, one zstd, two inner-offset cases). Inputs B: hand-assembled spec-conforming TOCs by family. C-clone-first: the call sequence NewReader -> Clone -> observe the clone before anything is asked of the original, on a bolt DB with the production MaxBatchDelay and with 0, 6 blobs incl. a TOC of 360 entries. " +
 			"states = distinct blobs; non-trivial = distinct observed filesystems (hash of the full observation) with at least one node besides the root. " +
 			"isolation: all histories over {open(A),open(B)[,open(C)],walk(h),close(h)} (at most 3 layers open at once; opening a layer that is already open = a second instance) in one bolt DB: quick depth 4 over 2 layers; thorough depth 6 over 2 layers (iso-sync) and depth 5 over 3 layers incl. a zstd:chunked one (iso-lazy); after every operation every open layer must give its solo observation and filesystems/ must hold exactly the open layers' buckets.",
 		Assumptions: []string{
@@ -1143,7 +1174,7 @@ func main() {
 		QuickBudget: 3 * time.Minute, ThoroughBudget: 25 * time.Minute,
 		Parts: func(tier string) []runner.Part {
 			return []runner.Part{
-				partB(),
+				partB(), partLarge(), partCloneFirst(),
 				isoPart("iso-sync", tier, false), isoPart("iso-lazy", tier, true),
 				partA("A-build-zstdchunked", tier), partA("A-build-gzip", tier), partA("A-writer-gzip", tier),
 			}
